@@ -14,9 +14,11 @@ ACCS = {
 class Gen:
     def __init__(self, rng: random.Random, n_accs=1, n_fields=3, max_depth=3, max_inv=6,
                  launch_vals=False, carried=True, effects=True, pre_threaded=False, chains=False,
-                 one_setup_per_loop_nest=False, acc_specs=None, relaunch=True, flat_loops=False, index_vals=False):
+                 one_setup_per_loop_nest=False, acc_specs=None, relaunch=True, flat_loops=False, index_vals=False, early_inputs=False):
         self.rng = rng
         self.acc_specs = acc_specs
+        self.early_inputs = early_inputs
+        self.prefer = []
         if acc_specs:
             self.accs = list(acc_specs)
             self.fields = {a: acc_specs[a]["fields"] for a in self.accs}
@@ -83,7 +85,12 @@ class Gen:
         else:
             for f in fs:
                 p = pool + ivpool * 2 if ivpool else pool
-                vals.append(self.value(ind, p))
+                early = [v for v in self.prefer if v in pool]
+                if early and self.rng.random() < 0.5:
+                    vals.append(self.rng.choice(early))      # a value that was computed between the previous launch and its await
+                else:
+                    vals.append(self.value(ind, p))
+            self.prefer = []
         self.last_vals[acc] = list(vals)
         s, t = self.fresh("s"), self.fresh("t")
         # index-typed values (two arguments of one block): the lowering has to bring each of them to the register width itself
@@ -111,7 +118,20 @@ class Gen:
             self.emit(ind, f'{t} = "accfg.launch"({lv}, {s}) <{{param_names = ["launch"], accelerator = "{acc}"}}> : (i32, !accfg.state<"{acc}">) -> !accfg.token<"{acc}">')
         else:
             self.emit(ind, f'{t} = "accfg.launch"({s}) <{{param_names = [], accelerator = "{acc}"}}> : (!accfg.state<"{acc}">) -> !accfg.token<"{acc}">')
+        new = []
+        if self.early_inputs and self.rng.random() < 0.3:
+            # partially overlapped code: inputs of the NEXT configuration are already computed while the accelerator runs
+            for _ in range(self.rng.randint(1, 2)):
+                v = self.fresh()
+                self.emit(ind, f"{v} = arith.{self.rng.choice(['addi', 'muli'])} {self.rng.choice(pool + ivpool)}, {self.rng.choice(pool)} : i32")
+                new.append(v)
+            self.prefer = list(new)
         self.emit(ind, f'"accfg.await"({t}) : (!accfg.token<"{acc}">) -> ()')
+        if new and self.rng.random() < 0.5:
+            v = self.fresh()
+            self.emit(ind, f"{v} = arith.addi {new[-1]}, {self.rng.choice(pool)} : i32")     # ... and some more behind the await
+            new.append(v)
+            self.prefer.append(v)
         self.inv += 1
         if self.relaunch and not self.acc_specs and self.rng.random() < 0.15:
             # the same configuration is launched again from inside a nested region that contains no setup (conditional / repeated re-launch)
@@ -123,6 +143,7 @@ class Gen:
             self.emit(ind + 1, f'{t2} = "accfg.launch"({s}) <{{param_names = [], accelerator = "{acc}"}}> : (!accfg.state<"{acc}">) -> !accfg.token<"{acc}">')
             self.emit(ind + 1, f'"accfg.await"({t2}) : (!accfg.token<"{acc}">) -> ()')
             self.emit(ind, "}")
+        return new
 
     def block(self, ind, depth, pool, ivpool, n_items=None):
         n_items = n_items or self.rng.randint(1, 3)
@@ -132,7 +153,7 @@ class Gen:
                 r = 0.0 if r < 0.5 else 0.97
             if r < 0.45 or depth >= self.max_depth:
                 if self.inv < self.max_inv:
-                    self.invocation(ind, pool, ivpool)
+                    pool = pool + (self.invocation(ind, pool, ivpool) or [])
             elif r < 0.70:
                 pool = pool + self.for_loop(ind, depth, pool, ivpool)
             elif r < 0.86:
